@@ -14,6 +14,14 @@ pub trait HasGenValueInfo {
     #[must_use]
     fn gen_memory_value(&self) -> Option<(MemoryLocation, AvailableValue)>;
 
+    /// The memory locations whose value this node changes without the new
+    /// value being one that is tracked.
+    ///
+    /// Stack locations are relative to the current stack pointer, as in
+    /// `gen_memory_value`.
+    #[must_use]
+    fn kill_memory_values(&self) -> Vec<MemoryLocation>;
+
     #[must_use]
     fn gen_reg_value(&self) -> Option<(Register, AvailableValue)>;
 }
